@@ -36,7 +36,17 @@ def utol(o):
     if not np.all(np.isfinite(err)):
         return None
     umax = max([abs(F(v)) for v in o["U"]] + [Fr(0)])
-    return 10 * Fr(float(np.max(np.abs(err)))) + Fr(1, 10 ** 11) * umax + Fr(1, 10 ** 300)
+    # two runs that are compared (other units, another placement, another order) do not work on the same float matrix:
+    # every stiffness term and load entry carries a few units in the last place of its own, and the solution moves by
+    # |K^-1| (|dK| |u| + |df|) <= 16 ulp x |K^-1| (|K| |u| + |f|) - which is what conditioning means for a slender member
+    try:
+        u = np.array([float(v) for v in o["U"]])
+        f = np.array([float(v) for v in o["F"]])
+        sens = np.abs(np.linalg.inv(K)) @ (np.abs(K) @ np.abs(u) + np.abs(f))
+        rounding = 16 * 2.0 ** -53 * float(np.max(sens)) if np.all(np.isfinite(sens)) else 0.0
+    except (np.linalg.LinAlgError, ValueError):
+        rounding = 0.0
+    return 10 * Fr(float(np.max(np.abs(err)))) + Fr(rounding) + Fr(1, 10 ** 11) * umax + Fr(1, 10 ** 300)
 
 
 def amplification(o):
